@@ -6,6 +6,6 @@ CONSTANTS
   Bug = "none"
   Emit = TRUE
   Samples = 0
-  EmitMod = 3
+  EmitMod = 5
 INVARIANTS InvVisit EmitInv
 CHECK_DEADLOCK FALSE
